@@ -26,6 +26,20 @@ tx uses_min_utxo(quantity: Int) {
     output second { to: Receiver, amount: min_utxo(second), }
     output { to: Sender, amount: source - Ada(quantity) - min_utxo(second) - fees, }
 }
+tx mint_v3(quantity: Int) {
+    input source { from: Sender, min_amount: Ada(2000000) + fees, }
+    mint { amount: AnyAsset(0x6b9c456aa650cb808a9ab54326e039d5235ed69f069c9664a8fe5b69, "ABC", quantity), redeemer: (), }
+    output { to: Receiver, amount: Ada(2000000) + AnyAsset(0x6b9c456aa650cb808a9ab54326e039d5235ed69f069c9664a8fe5b69, "ABC", quantity), }
+    output { to: Sender, amount: source - Ada(2000000) - fees, }
+    cardano::plutus_witness { version: 3, script: 0x5101010023259800a518a4d136564004ae69, }
+}
+tx mint_v2(quantity: Int) {
+    input source { from: Sender, min_amount: Ada(2000000) + fees, }
+    mint { amount: AnyAsset(0x6b9c456aa650cb808a9ab54326e039d5235ed69f069c9664a8fe5b69, "ABC", quantity), redeemer: (), }
+    output { to: Receiver, amount: Ada(2000000) + AnyAsset(0x6b9c456aa650cb808a9ab54326e039d5235ed69f069c9664a8fe5b69, "ABC", quantity), }
+    output { to: Sender, amount: source - Ada(2000000) - fees, }
+    cardano::plutus_witness { version: 2, script: 0x5101010023259800a518a4d136564004ae69, }
+}
 tx min_utxo_first(quantity: Int) {
     input source { from: Sender, min_amount: Ada(quantity) + fees, }
     output first { to: Receiver, amount: min_utxo(first), }
@@ -84,15 +98,17 @@ fn show(r: &Result<tx3_tir::compile::CompiledTx, Error>) -> String {
 }
 
 fn main() {
-    // BOUND: histories of length 0..=2 over 7 kinds of earlier use, 4 target templates, one parameter setting.
+    // BOUND: histories of length 0..=2 over 9 kinds of earlier use, 6 target templates (two with redeemers and Plutus
+    // witnesses of different versions), one parameter setting.
     let steps = [
         Step::Resolve("one_output"), Step::Resolve("two_outputs"), Step::Resolve("uses_min_utxo"), Step::Resolve("min_utxo_first"),
         Step::ResolveFailing("two_outputs"), Step::Compile("one_output"), Step::Compile("two_outputs"),
+        Step::Resolve("mint_v3"), Step::Resolve("mint_v2"),
     ];
     let mut histories: Vec<Vec<Step>> = vec![vec![]];
     for a in steps { histories.push(vec![a]); }
     for a in steps { for b in steps { histories.push(vec![a, b]); } }
-    let targets = ["one_output", "two_outputs", "uses_min_utxo", "min_utxo_first"];
+    let targets = ["one_output", "two_outputs", "uses_min_utxo", "min_utxo_first", "mint_v2", "mint_v3"];
     let mut cases = 0u64;
     for target in targets {
         let mut fresh = compiler(44, 155381, None);
@@ -108,7 +124,7 @@ fn main() {
                 _ => false,
             };
             if !same {
-                let class = if target.contains("min_utxo") { "min-utxo-sized-from-remembered-body" } else { "other" };
+                let class = if target.contains("min_utxo") { "min-utxo-sized-from-remembered-body" } else if target.starts_with("mint_v") { "script-data-from-remembered-language" } else { "other" };
                 println!("VERIF-WITNESS obligation=c20_pipeline/resolve_tx#history fn=resolve_tx input=history {h:?} then resolve {target} class={class} observed=fresh: {} / used: {} required=the same outcome as a fresh, identically configured instance",
                     show(&a), show(&b));
             }
